@@ -305,8 +305,34 @@ def check(case):
     return True
 
 
+def check_growing(case):
+    """The profiled pipeline sits on a raw list that grows: length, negative index and slices of the wrapper follow
+    the wrapped pipeline (also after they were asked once before)."""
+    import lazy_dataset
+    from lazy_dataset import core
+    lst = [('s', i) for i in range(case['n'])]
+    P = core.ListDataset(lst).map(lambda x: x)
+    if case['top'] == 'batch':
+        P = P.batch(2)
+    W = core.ProfilingDataset(P)
+    for step in range(3):
+        want = list(P)
+        got = list(W)
+        desc = f'{case} after {step} append(s)'
+        if got != want or len(W) != len(P):
+            raise Violation('wrapped-len|growing', f'{desc}\nwrapper: len {len(W)}, yields {got}\npipeline: len '
+                                                   f'{len(P)}, yields {want}')
+        if want and (W[-1] != want[-1] or list(W[1:]) != want[1:]):
+            raise Violation('wrapped-index-value|growing', f'{desc}\nW[-1] == {W[-1]!r}, W[1:] == {list(W[1:])}; '
+                                                           f'pipeline yields {want}')
+        lst.append(('s', 'new', step))
+
+
 def replay(case):
     progcheck.setup_process()
+    if case.get('growing'):
+        check_growing(case)
+        return
     check(dict(case))
 
 
@@ -411,4 +437,17 @@ def run_shard(tier, idx, nshards, rec, known):
         rec.case({'program': progs.show(node), 'mode': case['mode'], 'k': case.get('k'), 'ast': node,
                   'user_stage': bool(case.get('user_stage')),
                   'profiling_nodes_checked': c.get('_checked_nodes', 0)}, nt, cls, size=progs.size(node))
+    if idx == 0:
+        from ..common import Outcome
+        o0 = Outcome()
+        for n in (1, 2, 3):
+            for top in ('map', 'batch'):
+                case = {'growing': True, 'n': n, 'top': top}
+                try:
+                    check_growing(case)
+                except Violation as v:
+                    if not known.match(v.sig):
+                        o0.violation = (case, v.sig, v.detail)
+                        return [o0]
+                rec.case(case, True, ['growing-list'], size=n)
     return [drive(one, st_case(), N[tier], rec, known, seed() * 1000 + idx)]
